@@ -41,7 +41,8 @@ func (p *BaseFailurePolicy[R]) HandleErrorTypes(errs ...any) {
 
 func (p *BaseFailurePolicy[R]) HandleResult(result R) {
 	p.failureConditions = append(p.failureConditions, func(r R, err error) bool {
-		return reflect.DeepEqual(r, result)
+		// Only consider the result when no error was returned
+		return err == nil && reflect.DeepEqual(r, result)
 	})
 }
 
